@@ -43,41 +43,12 @@ theorem codeBits_eq_msb (b n : Nat) (h : n ≤ 8) : codeBits b n = msbBits b n :
   have := codeBits_shift b 0 n (by omega)
   simpa [msbBits] using this
 
-theorem msbBits_length (b n : Nat) : (msbBits b n).length = n := by simp [msbBits]
-
-theorem msbBits_take (b n k : Nat) : (msbBits b n).take k = msbBits b (min k n) := by
-  simp [msbBits, ← List.map_take, List.take_range]
-
 theorem bitPulses_nil (zero one : List Nat) : bitPulses zero one [] = [] := rfl
 theorem bitPulses_cons (zero one : List Nat) (x : Bool) (xs : List Bool) :
     bitPulses zero one (x :: xs) = (if x then one else zero) ++ bitPulses zero one xs := rfl
 theorem bitPulses_append (zero one : List Nat) (a b : List Bool) :
     bitPulses zero one (a ++ b) = bitPulses zero one a ++ bitPulses zero one b := by
   simp [bitPulses]
-
-theorem bitPulses_length_uniform (zero one : List Nat) (h : zero.length = one.length) (bits : List Bool) :
-    (bitPulses zero one bits).length = zero.length * bits.length := by
-  induction bits with
-  | nil => simp [bitPulses]
-  | cons x xs ih =>
-    rw [bitPulses_cons, List.length_append, ih]
-    cases x <;> simp [h, Nat.mul_succ] <;> omega
-
-theorem bitPulses_take_uniform (zero one : List Nat) (h : zero.length = one.length) (bits : List Bool)
-    (k : Nat) : (bitPulses zero one bits).take (zero.length * k) = bitPulses zero one (bits.take k) := by
-  induction bits generalizing k with
-  | nil => simp [bitPulses]
-  | cons x xs ih =>
-    cases k with
-    | zero => simp [bitPulses]
-    | succ k =>
-      rw [bitPulses_cons, List.take_succ_cons, bitPulses_cons]
-      have hl : (if x then one else zero).length = zero.length := by cases x <;> simp [h]
-      rw [List.take_append, hl]
-      have h1 : zero.length * (k + 1) - zero.length = zero.length * k := by
-        rw [Nat.mul_succ]; omega
-      rw [h1, ih, List.take_of_length_le]
-      rw [hl, Nat.mul_succ]; omega
 
 /-! ### The data sequences of the model in terms of the spec -/
 
@@ -104,26 +75,11 @@ theorem flatMap_byteTimings (zero one : List Nat) (l : List Nat) :
   | nil => rfl
   | cons a rest ih => simp only [List.flatMap_cons, ih, byteTimings_eq, bitPulses_append]
 
-/-- The table path sends exactly the block's bits — when both bit sequences have
-the same number of pulses, or all eight bits of the last byte are used. -/
-theorem fastSeq_eq_spec (zero one : List Nat) (ub : Nat) (data : List Nat) (hd : data ≠ [])
-    (h : zero.length = one.length ∨ 8 ≤ ub) :
+/-- The table path sends exactly the block's bits (8 per byte, `min used_bits 8` of the last). -/
+theorem fastSeq_eq_spec (zero one : List Nat) (ub : Nat) (data : List Nat) (hd : data ≠ []) :
     fastSeq zero one ub data = bitPulses zero one (dataBits ub data) := by
-  rw [dataBits_snoc ub data hd, bitPulses_append, fastSeq, flatMap_byteTimings]
-  congr 1
-  simp only [byteTimings_eq]
-  rcases h with h | h
-  · rw [bitPulses_length_uniform zero one h, msbBits_length]
-    have : zero.length * 8 * ub / 8 = zero.length * ub := by
-      rw [Nat.mul_right_comm, Nat.mul_div_cancel _ (by decide : 0 < 8)]
-    rw [this, bitPulses_take_uniform zero one h, msbBits_take]
-  · have h8 : min ub 8 = 8 := by omega
-    rw [h8, List.take_of_length_le]
-    have : (bitPulses zero one (msbBits (data.getLastD 0) 8)).length * 8 ≤
-        (bitPulses zero one (msbBits (data.getLastD 0) 8)).length * ub := Nat.mul_le_mul_left _ h
-    have h2 := Nat.div_le_div_right (c := 8) this
-    rw [Nat.mul_div_cancel _ (by decide : 0 < 8)] at h2
-    exact h2
+  rw [dataBits_snoc ub data hd, bitPulses_append, fastSeq, flatMap_byteTimings, bitSeq_eq,
+    codeBits_eq_msb _ _ (Nat.min_le_right _ _)]
 
 /-- The merge loop visits exactly the block's bits when `used_bits ≤ 8`. -/
 theorem slowSeq_eq_spec (zero one : List Nat) (ub : Nat) (data : List Nat) (h : ub ≤ 8) :
